@@ -166,7 +166,7 @@ static int vf_explore(const vf_prog_t* prog, const vf_xcfg_t* cfg, vf_xstats_t* 
       pid_t pid = fork();
       if (pid == 0) { vf_child_exec(prog, cfg, (const uint8_t*)"", 0, &vf_xslots[0]); _exit(0); }
       int status = 0; waitpid(pid, &status, 0);
-      if (!(WIFEXITED(status) && WEXITSTATUS(status) == 0)) { sig[0] = sig[1]; break; }   /* the passes below report it properly */
+      if (!(WIFEXITED(status) && WEXITSTATUS(status) == 0)) { sig[0] = sig[1]; nn[0] = nn[1]; break; }   /* the passes below report it properly */
       sig[r] = vf_xslots[0].sig; nn[r] = vf_xslots[0].n;
     }
     if (sig[0] != sig[1] || nn[0] != nn[1]) { fprintf(stderr, "nondeterministic execution: operation signatures differ between two runs of the same schedule\n"); vf_sh->infra_error = 1; return 2; }
